@@ -12,6 +12,16 @@ CLAIMED = {
         design_ref='DESIGN.md §5 C13',
         note='bounded: <=4 pre-existing variables with symbolic root values, argument lists <=3 literals (quick: cardinality constructs <=2), pairwise encoding only in quick; expression cache restricted to states without a cached reified expression (cache-hit reuse not covered); std::sort modelled as a stable insertion sort; string keys modelled as token sequences; product encoding (n>=4) only in the thorough tier',
         technique='contract-based deductive verification (CBMC function contracts via goto-instrument --dfcc, callee contracts by --replace-call-with-contract, ghost clause log) on C extracted from the real C++'),
+    'C12': dict(
+        text='idl_theory::new_lt/new_leq/new_eq/new_geq/new_gt are extracted to C on every run and proved, for one arbitrary (ghost) integer valuation of the time points consistent with the distance matrix and one arbitrary propositional assignment, to return a literal that is true exactly when the relation holds on the difference expression, and to raise invalid_argument exactly for expressions that are not of difference form (or whose constant is not an integer multiple); new_distance and new_conj are replaced by their meaning contracts.',
+        design_ref='DESIGN.md §5 C12',
+        note='claimed in part: IDL relation literals only (RDL, bounds/distance/equates on expressions and the body of new_distance are not yet under contract); expressions with <=2 terms over 3 (quick) / 4 time points, |coefficients| < 4, right operand fixed to the zero expression (left - right is exact by C15); no native replay driver (violations are reported with no-failing-input-found)',
+        technique='contract-based deductive verification (CBMC function contracts via goto-instrument --dfcc, callee contracts by --replace-call-with-contract) on C extracted from the real C++'),
+    'C08': dict(
+        text='The undo-log invariant Undo(layer, current, snapshot) is proved inductively on the real code: push opens an empty level, every mutator (idl set_dist/set_pred, lra assert_lower/assert_upper) logs the value before its first write in the level and changes only the intended entry, pop restores exactly the snapshot (distances, predecessors, enforced constraints; bounds and their reasons) and sat_core::pop_one/pop undo exactly the assignments of the last level and pop every theory once. One symbolic level is proved, lower levels are untouched by the frame, so any depth and any history length follow.',
+        design_ref='DESIGN.md §5 C08',
+        note='claimed in part: idl_theory, lra_theory bounds and sat_core trail; rdl_theory (same code shape), ov_theory and solver-level push/pop not yet under contract; matrix 2x2 (quick) / 3x3, 2 arithmetic variables, 4 propositional variables; value listeners not registered; lra constraint propagation callbacks abstracted; no native replay driver',
+        technique='contract-based deductive verification of an inductive data-structure invariant (CBMC function contracts via goto-instrument --dfcc) on C extracted from the real C++'),
 }
 
 _DEFAULT_NA = 'not yet brought under contract in this state of the machinery (see DESIGN.md §5 for the planned contracts)'
